@@ -21,12 +21,26 @@ theorem init_unknown (ty : Ty) :
 @[simp] theorem recoverErr_ok {α : Type} (a : α) : recoverErr (Res.ok a) = .ok a := rfl
 
 theorem unmarshal_ext_map (E : Ext) (ty : Ty) (len n : Nat) (stream : List Item)
-    (h1 : 1 < len) (h2 : len ≤ maxExtLen) (hd : ty.isDyn = false) :
+    (h1 : 1 < len) (h2 : len ≤ maxExtLen) (hd : ty.isDyn = false) (hk : knownLenList ty n stream = false) :
     unmarshal E (.ext unknownWithRefinementsExt len (.map n) stream) ty =
       recoverErr ((rfnLoop E ty n stream ⟨⟨ty, .unk .unref⟩, [], freshWip ⟨ty, .unk .unref⟩⟩).bind Refine.newValue) := by
   have h1' : ¬ len ≤ 1 := by omega
   have h2' : ¬ len > maxExtLen := by omega
-  simp [unmarshal, h1', h2', hd, init_unknown, Res.bind]
+  simp [unmarshal, h1', h2', hd, init_unknown, Res.bind, hk]
+
+/-- /repo bb6ac26 only concerns list types -/
+theorem knownLenList_not_list (ty : Ty) (n : Nat) (s : List Item) (h : isListTy ty = false) :
+    knownLenList ty n s = false := by
+  simp [knownLenList, h]
+
+/-- … and refinements whose two length bounds differ (or that do not say "not null") -/
+theorem knownLenList_facts (ty : Ty) (n : Nat) (s : List Item) (nn : Bool) (lo hi : Int)
+    (hf : lenFacts n s (false, 0, Refine.maxInt) = (nn, lo, hi)) (h : nn = false ∨ lo ≠ hi) :
+    knownLenList ty n s = false := by
+  simp only [knownLenList, hf]
+  rcases h with h | h
+  · simp [h]
+  · simp [h]
 
 theorem unmarshal_plain (E : Ext) (ty : Ty) : unmarshal E plainUnknown ty = .ok ⟨ty, .unk .unref⟩ := by
   simp [unmarshal, plainUnknown, Value.unknown]
@@ -203,6 +217,8 @@ theorem setNull_nullness (n : Tri) (r : Rfn) (h : r ≠ .unref) : (setNull n r).
 /-- assembling the round trip of an unknown value from the run of the decoder's
 loop over the type-specific entries -/
 theorem unknown_rt_core (E : Ext) (vt : Ty) (r r' : Rfn) (sp : List Item) (hd : vt.isDyn = false)
+    (hkl : knownLenList vt ((nnEntry (decide (r.nullness = .f)) ++ sp).length / 2)
+      (nnEntry (decide (r.nullness = .f)) ++ sp) = false)
     (he : rfnEntries E vt r = .ok sp) (hrn : r.nullness ≠ .t)
     (hsize : (match marshalUnknown E vt r with
               | .ok (.ext _ len _ _) => decide (len ≤ maxExtLen)
@@ -247,7 +263,7 @@ theorem unknown_rt_core (E : Ext) (vt : Ty) (r r' : Rfn) (sp : List Item) (hd : 
             simp only [nnEntry, hf, decide_false]
             exact encSizeL_int_pos _ _
       omega
-    rw [unmarshal_ext_map E vt _ _ _ hbig hsize hd]
+    rw [unmarshal_ext_map E vt _ _ _ hbig hsize hd hkl]
     have hcount : (nnEntry (decide (r.nullness = .f)) ++ sp).length / 2 =
         sp.length / 2 + (if decide (r.nullness = .f) then 1 else 0) := by
       by_cases hf : r.nullness = .f <;> simp [nnEntry, hf] <;> omega
@@ -260,6 +276,10 @@ theorem unknown_rt_core (E : Ext) (vt : Ty) (r r' : Rfn) (sp : List Item) (hd : 
     simp [Res.bind, hnv]
 
 
+theorem knl_nn (vt : Ty) (b : Bool) :
+    knownLenList vt ((nnEntry b ++ []).length / 2) (nnEntry b ++ []) = false := by
+  cases b <;> simp [knownLenList, nnEntry, lenFacts, decInt64, decBool, keyNullness, Refine.maxInt]
+
 /-- no type-specific entry: only the nullness travels -/
 theorem unknown_rt_plain (E : Ext) (vt : Ty) (r : Rfn) (hd : vt.isDyn = false)
     (he : rfnEntries E vt r = .ok []) (hrn : r.nullness ≠ .t)
@@ -270,7 +290,7 @@ theorem unknown_rt_plain (E : Ext) (vt : Ty) (r : Rfn) (hd : vt.isDyn = false)
     (hc : collapse vt (setNull .f (fw vt)) = .ok none) :
     ∃ it, marshalUnknown E vt r = .ok it ∧ ∃ r'', unmarshal E it vt = .ok ⟨vt, .unk r''⟩ ∧ Weaker vt r'' r := by
   obtain ⟨hfw1, hfw2⟩ := fw_ne vt hd
-  apply unknown_rt_core E vt r (setNull .f (fw vt)) [] hd he hrn hsize (by simp)
+  apply unknown_rt_core E vt r (setNull .f (fw vt)) [] hd (knl_nn vt _) he hrn hsize (by simp)
   intro hne
   have hf : r.nullness = .f := by
     by_cases hf : r.nullness = .f
@@ -313,6 +333,23 @@ theorem collapse_coll (vt : Ty) (n : Tri) (lo hi : Int) (h : collStaysUnknown vt
 
 theorem maxInt_eq : Refine.maxInt = maxI64 := rfl
 
+theorem lenFacts_coll (n : Tri) (lo hi : Int) (h0 : 0 ≤ lo) (hle : lo ≤ hi) (hmax : hi ≤ Refine.maxInt) :
+    lenFacts ((nnEntry (decide ((Rfn.coll n lo hi).nullness = .f)) ++
+        ((if lo ≠ 0 then [.int keyLengthMin, encInt lo] else []) ++
+         (if hi ≠ Refine.maxInt then [.int keyLengthMax, encInt hi] else []))).length / 2)
+      (nnEntry (decide ((Rfn.coll n lo hi).nullness = .f)) ++
+        ((if lo ≠ 0 then [Item.int keyLengthMin, encInt lo] else []) ++
+         (if hi ≠ Refine.maxInt then [Item.int keyLengthMax, encInt hi] else [])))
+      (false, 0, Refine.maxInt) = (decide (n = .f), lo, hi) := by
+  have hlo64 : lo ≤ maxI64 := by rw [← maxInt_eq]; omega
+  have hhi64 : hi ≤ maxI64 := by rw [← maxInt_eq]; omega
+  have hhi0 : 0 ≤ hi := by omega
+  have e1 := decInt64_encInt lo h0 hlo64
+  have e2 := decInt64_encInt hi hhi0 hhi64
+  by_cases hn : n = .f <;> by_cases h1 : lo = 0 <;> by_cases h2 : hi = Refine.maxInt <;>
+    simp [Rfn.nullness, nnEntry, hn, h1, h2, lenFacts, decInt64_int, decBool, e1, e2,
+      keyNullness, keyLengthMin, keyLengthMax] <;> omega
+
 theorem unknown_rt_coll (E : Ext) (vt : Ty) (n : Tri) (lo hi : Int) (hc : isCollection vt = true)
     (h : rfnOK E vt (.coll n lo hi) = true) :
     ∃ it, marshalUnknown E vt (.coll n lo hi) = .ok it ∧
@@ -332,7 +369,21 @@ theorem unknown_rt_coll (E : Ext) (vt : Ty) (n : Tri) (lo hi : Int) (hc : isColl
   have hlo64 : lo ≤ maxI64 := by rw [← maxInt_eq]; omega
   have hhi64 : hi ≤ maxI64 := by rw [← maxInt_eq]; omega
   have hhi0 : 0 ≤ hi := by omega
-  apply unknown_rt_core E vt (.coll n lo hi) (.coll n lo hi) _ hd he (by simpa [Rfn.nullness] using hnt') hsize
+  have hkl : knownLenList vt
+      ((nnEntry (decide ((Rfn.coll n lo hi).nullness = .f)) ++
+        ((if lo ≠ 0 then [.int keyLengthMin, encInt lo] else []) ++
+         (if hi ≠ Refine.maxInt then [.int keyLengthMax, encInt hi] else []))).length / 2)
+      (nnEntry (decide ((Rfn.coll n lo hi).nullness = .f)) ++
+        ((if lo ≠ 0 then [Item.int keyLengthMin, encInt lo] else []) ++
+         (if hi ≠ Refine.maxInt then [Item.int keyLengthMax, encInt hi] else []))) = false := by
+    by_cases hl : isListTy vt = true
+    · apply knownLenList_facts vt _ _ _ lo hi (lenFacts_coll n lo hi h0 hle hmax)
+      rcases hstay with hs | hs
+      · left; simpa [Rfn.nullness] using hs
+      · right
+        cases vt <;> simp_all [isListTy, collStaysUnknown]
+    · exact knownLenList_not_list _ _ _ (by simpa using hl)
+  apply unknown_rt_core E vt (.coll n lo hi) (.coll n lo hi) _ hd hkl he (by simpa [Rfn.nullness] using hnt') hsize
   · intro x rest hx
     by_cases h1 : lo ≠ 0 <;> by_cases h2 : hi ≠ Refine.maxInt <;> simp [h1, h2] at hx
     · exact ⟨_, hx.1.symm⟩
@@ -421,7 +472,7 @@ theorem unknown_rt_str (E : Ext) (n : Tri) (p : String) (h : rfnOK E .string (.s
   -- the prefix that travels
   by_cases hp : p = ""
   · subst hp
-    apply unknown_rt_core E .string (.str n "") (.str n "") [] rfl (by simp [rfnEntries]) (by simpa [Rfn.nullness] using hnt) hsize
+    apply unknown_rt_core E .string (.str n "") (.str n "") [] rfl (knownLenList_not_list _ _ _ rfl) (by simp [rfnEntries]) (by simpa [Rfn.nullness] using hnt) hsize
       (by simp)
     intro _
     rw [hwip]
@@ -442,7 +493,7 @@ theorem unknown_rt_str (E : Ext) (n : Tri) (p : String) (h : rfnOK E .string (.s
         rw [List.isPrefixOf_iff_prefix]
         exact List.prefix_refl _
     obtain ⟨q, he, hnq, hpre⟩ := hq
-    apply unknown_rt_core E .string (.str n p) (.str n (if (bytes q).length > 0 then q else "")) _ rfl he
+    apply unknown_rt_core E .string (.str n p) (.str n (if (bytes q).length > 0 then q else "")) _ rfl (knownLenList_not_list _ _ _ rfl) he
       (by simpa [Rfn.nullness] using hnt) hsize
     · intro x rest hx
       simp at hx
@@ -569,14 +620,14 @@ theorem unknown_rt_num (E : Ext) (n : Tri) (lo hi : Option Bound) (h : rfnOK E .
   | none =>
     cases hi with
     | none =>
-      apply unknown_rt_core E .number _ (.num n none none) _ rfl he hnt' hsize (by simp [boundEntry])
+      apply unknown_rt_core E .number _ (.num n none none) _ rfl (knownLenList_not_list _ _ _ rfl) he hnt' hsize (by simp [boundEntry])
       intro _
       rw [hwip]
       refine ⟨by simp [boundEntry, loop_done], ?_, weaker_refl _ _⟩
       exact newValue_bld .number _ rfl (by simp) hnt' (fun _ => rfl)
     | some hb =>
       obtain ⟨z, hz1, hz2, hz3⟩ := hdh hb rfl
-      apply unknown_rt_core E .number _ (.num n none (some ⟨z, hb.incl⟩)) _ rfl he hnt' hsize
+      apply unknown_rt_core E .number _ (.num n none (some ⟨z, hb.incl⟩)) _ rfl (knownLenList_not_list _ _ _ rfl) he hnt' hsize
       · intro x rest hx; simp [boundEntry] at hx; exact ⟨_, hx.1.symm⟩
       · intro _
         rw [hwip]
@@ -592,7 +643,7 @@ theorem unknown_rt_num (E : Ext) (n : Tri) (lo hi : Option Bound) (h : rfnOK E .
     obtain ⟨y, hy1, hy2, hy3⟩ := hdl lb rfl
     cases hi with
     | none =>
-      apply unknown_rt_core E .number _ (.num n (some ⟨y, lb.incl⟩) none) _ rfl he hnt' hsize
+      apply unknown_rt_core E .number _ (.num n (some ⟨y, lb.incl⟩) none) _ rfl (knownLenList_not_list _ _ _ rfl) he hnt' hsize
       · intro x rest hx; simp [boundEntry] at hx; exact ⟨_, hx.1.symm⟩
       · intro _
         rw [hwip]
@@ -610,7 +661,7 @@ theorem unknown_rt_num (E : Ext) (n : Tri) (lo hi : Option Bound) (h : rfnOK E .
       obtain ⟨hlt, hcol⟩ := hboth
       have hyz : Num.cmp y z < 0 := by
         rw [NumCmp.cmp_congr_left hy2 z, NumCmp.cmp_congr_right hz2 lb.v]; exact hlt
-      apply unknown_rt_core E .number _ (.num n (some ⟨y, lb.incl⟩) (some ⟨z, hb.incl⟩)) _ rfl he hnt' hsize
+      apply unknown_rt_core E .number _ (.num n (some ⟨y, lb.incl⟩) (some ⟨z, hb.incl⟩)) _ rfl (knownLenList_not_list _ _ _ rfl) he hnt' hsize
       · intro x rest hx; simp [boundEntry] at hx; exact ⟨_, hx.1.symm⟩
       · intro _
         rw [hwip]
